@@ -170,6 +170,79 @@ def h14 : List String → Option String
         (q.1, p + l, toks)) (s0, 0, #[])
       let toks := r.2.2
       some (if toks.isEmpty then "0" else toString toks.size ++ " " ++ String.intercalate " " toks.toList)
+  | "tunk" :: fs :: f :: sd :: per :: k0 :: n :: _ => do
+    -- 64 (= n) consecutive outputs of a long stream, from the counter value itself: after `k0` samples the 64-bit counter is
+    -- `k0` (fractional f: never reset) resp. `k0 mod fs` (integral f: reset at every multiple of fs); input x[k] = gen(k mod per, sd)
+    let fs ← fs.toNat?
+    let f ← parseF f
+    let sd ← sd.toNat?
+    let per ← per.toNat?
+    let k0 ← k0.toNat?
+    let n ← n.toNat?
+    match tunerInit fs f with
+    | .error _ => some "ERR"
+    | .ok s0 =>
+      let s : TunerState Float := { s0 with phase := if s0.periodic then k0 % fs else k0 }
+      let x : Array (Cx Float) := Array.ofFn (n := n) (fun i =>
+        let j := ((k0 + i.val) % per).toUInt64
+        ⟨genRe j sd.toUInt64, genIm j sd.toUInt64⟩)
+      some (fmtCxArr (tunerProcess s x).2)
+  | "hfg" :: rest => do
+    -- HilbertFilter(taps) on the generated stream x[k] = genRe k sd * sc cut into the given frames; digest of the concatenated output
+    let (h, rest) ← takeFloats rest
+    match rest with
+    | sc :: sd :: nf :: rest =>
+      let sc ← parseF sc
+      let sd ← sd.toNat?
+      let nf ← nf.toNat?
+      let lens ← (rest.take nf).mapM (fun t => t.toNat?)
+      match hfInit h with
+      | .error _ => some "ERR"
+      | .ok s0 =>
+        let r := lens.foldl (fun (acc : HfState Float × Nat × Array (Cx Float)) l =>
+          let p := acc.2.1
+          let x : Array Float := Array.ofFn (n := l) (fun i => genRe (p + i.val).toUInt64 sd.toUInt64 * sc)
+          let q := hfProcess acc.1 x
+          (q.1, p + l, acc.2.2 ++ q.2)) (s0, 0, #[])
+        some (digest r.2.2)
+    | _ => none
+  | "dlygR" :: nd :: sc :: sd :: nf :: rest => do
+    let nd ← nd.toNat?
+    let sc ← parseF sc
+    let sd ← sd.toNat?
+    let nf ← nf.toNat?
+    let lens ← (rest.take nf).mapM (fun t => t.toNat?)
+    let r := lens.foldl (fun (acc : Option (DelayState Float × Nat × Array (Cx Float))) l =>
+      match acc with
+      | none => none
+      | some a =>
+        let p := a.2.1
+        let x : Array Float := Array.ofFn (n := l) (fun i => genRe (p + i.val).toUInt64 sd.toUInt64 * sc)
+        match delayProcessE a.1 x with
+        | .error _ => none
+        | .ok q => some (q.1, p + l, a.2.2 ++ q.2.map (fun v => (⟨v, 0.0⟩ : Cx Float)))) (some (delayInit (0.0 : Float) nd, 0, #[]))
+    match r with
+    | none => some "ERR"
+    | some a => some (digest a.2.2)
+  | "dlygC" :: nd :: sc :: sd :: nf :: rest => do
+    let nd ← nd.toNat?
+    let sc ← parseF sc
+    let sd ← sd.toNat?
+    let nf ← nf.toNat?
+    let lens ← (rest.take nf).mapM (fun t => t.toNat?)
+    let r := lens.foldl (fun (acc : Option (DelayState (Cx Float) × Nat × Array (Cx Float))) l =>
+      match acc with
+      | none => none
+      | some a =>
+        let p := a.2.1
+        let x : Array (Cx Float) := Array.ofFn (n := l) (fun i =>
+          ⟨genRe (p + i.val).toUInt64 sd.toUInt64 * sc, genIm (p + i.val).toUInt64 sd.toUInt64 * sc⟩)
+        match delayProcessE a.1 x with
+        | .error _ => none
+        | .ok q => some (q.1, p + l, a.2.2 ++ q.2)) (some (delayInit (⟨0.0, 0.0⟩ : Cx Float) nd, 0, #[]))
+    match r with
+    | none => some "ERR"
+    | some a => some (digest a.2.2)
   | _ => none
 
 end Dsp.Driver.C14
